@@ -56,14 +56,21 @@ def main():
         run_props = [pid] if pid in claimed else []
     results = {}
     if confirmed and run_props:
-        st, _ = sh(["git", "-C", "/repo", "status", "--short"])
-        rc, out = sh(["git", "-C", "/repo", "apply", str(patch)])
+        # the change is applied to a scratch checkout of /repo's HEAD (VERIF_REPO), so that /repo itself stays untouched while
+        # other checks may be running against it; equivalent to `git -C /repo apply` + `git -C /repo checkout -- .`
+        scratch = "/var/tmp/seed_apply"
+        sh(["git", "-C", "/repo", "worktree", "remove", "--force", scratch])
+        sh(["git", "-C", "/repo", "worktree", "prune"])
+        rc, out = sh(["git", "-C", "/repo", "worktree", "add", "--detach", scratch, "HEAD"])
+        rc, out = sh(["git", "-C", scratch, "apply", str(patch)])
         if rc != 0:
-            print("patch does not apply to /repo:", out)
+            print("patch does not apply to /repo HEAD:", out)
+            sh(["git", "-C", "/repo", "worktree", "remove", "--force", scratch])
             return 2
+        cenv = dict(__import__("os").environ, VERIF_REPO=scratch)
         try:
             for p in run_props:
-                rc, out = sh(["bin/check", p], cwd=str(VERIF), timeout=3000)
+                rc, out = sh(["bin/check", p], cwd=str(VERIF), env=cenv, timeout=3000)
                 lines = [l for l in out.splitlines() if l.startswith(("VIOLATION", "OK", "KNOWN-FINDING"))]
                 verdict = "missed"
                 for l in lines:
@@ -76,10 +83,8 @@ def main():
                 results[p] = verdict
                 print(f"   check {p}: exit={rc} {verdict} {(results.get('_detail', {}).get(p) or {}).get('clause') or ''}"[:300])
         finally:
-            sh(["git", "-C", "/repo", "checkout", "-q", "--", "."])
-    _, st = sh(["git", "-C", "/repo", "status", "--short"])
-    if st.strip():
-        print("WARNING /repo not clean:", st)
+            sh(["git", "-C", "/repo", "worktree", "remove", "--force", scratch])
+            sh(["git", "-C", "/repo", "worktree", "prune"])
     dest = VERIF / "seeded" / (f"{pid}-{i}" if rnd == "1" else f"{pid}-r{rnd}-{i}")
     if confirmed:
         dest.mkdir(parents=True, exist_ok=True)
@@ -99,7 +104,7 @@ def main():
                           "how": f"git apply in scratch worktree {wt}; /venv/bin/python -m pytest -q -p no:cacheprovider; PYTHONPATH=<worktree> /venv/bin/python demo.py"},
             "check_results": allres,
             "detail": detail,
-            "what_i_ran": "tools/seed_eval.py: git -C /repo apply patch.diff; bin/check <property>; git -C /repo checkout -- .",
+            "what_i_ran": "tools/seed_eval.py: patch.diff applied to a scratch checkout of /repo HEAD; VERIF_REPO=<scratch> bin/check <property>; scratch removed",
         }, indent=1) + "\n")
     return 0
 
